@@ -332,11 +332,20 @@ func (g *gen) parseESDTLine(snd, rcv, tok []byte) string {
 		}
 		for i := 0; i < n; i++ {
 			nonce := uint64(g.r.Intn(3))
+			nb := be(nonce)
+			switch g.r.Intn(4) { // spellings: the sender side itself writes a zero nonce as one zero byte
+			case 0:
+				if nonce == 0 {
+					nb = []byte{0}
+				}
+			case 1:
+				nb = append([]byte{0}, nb...)
+			}
 			switch {
 			case atSender || nonce == 0:
-				args = append(args, tok, be(nonce), g.randArg())
+				args = append(args, tok, nb, g.randArg())
 			default:
-				args = append(args, tok, be(nonce), payload())
+				args = append(args, tok, nb, payload())
 			}
 		}
 	}
